@@ -338,9 +338,11 @@ def main(pid):
         import outrank.algorithms.importance_estimator as IE
         from types import SimpleNamespace
         n_disp = 0
-        for Y, X in itertools.islice(pairs(), 400, 460):
-            if len(X) < 6:
-                continue
+        disp_pairs = []
+        for _ in range(30):
+            n_ = int(rng.integers(12, 60))
+            disp_pairs.append((rng.integers(0, 4, n_).astype(np.int32), rng.integers(0, 3, n_).astype(np.int32)))
+        for Y, X in disp_pairs:
             for name, corr in (('MI-numba-randomized', True), ('MI-numba-3mr', False)):
                 for r in (0.5, 0.8):
                     args_ = SimpleNamespace(heuristic=name, mi_stratified_sampling_ratio=r)
@@ -351,7 +353,7 @@ def main(pid):
                     if not approx(got, want, 1e-6):
                         h.fail('conduct_feature_ranking.passes_the_sampling_ratio', {'Y': Y, 'X': X, 'heuristic': name, 'ratio': r},
                                f'{got} through the ranking entry point, {want} from the estimator with this ratio')
-        h.bounded_note('the sampling ratio is forwarded by conduct_feature_ranking / numba_mi for both MI-numba heuristics', '60 pairs x 2 ratios', n_disp)
+        h.bounded_note('the sampling ratio is forwarded by conduct_feature_ranking / numba_mi for both MI-numba heuristics', '30 pairs x 2 heuristics x 2 ratios', n_disp)
         # sample-only: altering feature values outside the sampled rows does not change the score
         n_so = 0
         for Y, X in pairs():
